@@ -1,5 +1,6 @@
 import Dmn.Model.Workspace
 import Dmn.Model.Json
+import Dmn.Model.DtoJson
 
 /-!
 # The HTTP handlers of `server/src/server.rs` as functions onto the workspace model
@@ -59,8 +60,9 @@ inductive Resp where
   | status (text : String)
   /-- the evaluated value, rendered by `jsonify` -/
   | value (v : JV)
+  /-- the answer of `POST /tck/evaluate`: `ResultDto::data(OutputNodeDto)` through `serde_json` -/
+  | tck (o : Dmn.Dto.OutputNode)
   | error (e : Err)
-  deriving Repr
 
 def Resp.isError : Resp → Bool
   | .error _ => true
@@ -132,56 +134,6 @@ def do_evaluate {I : Type} (eval : String → String → I → JV) (s : State) (
     | none => (s, .error (.missingParameter "invocable"))
   | none => (s, .error (.missingParameter "model"))
 
-/-! ## Requests and histories -/
-
-inductive Request (I : Type) where
-  | add (content : Option (List Char))
-  | replace (content : Option (List Char))
-  | remove (ns name : Option String)
-  | clear
-  | deploy
-  | evaluate (model invocable : Option String) (input : Except (List Char) I)
-
-def handle {I : Type} (c : Codec) (eval : String → String → I → JV) (s : State) : Request I → State × Resp
-  | .add content => do_add c s content
-  | .replace content => do_replace c s content
-  | .remove ns name => do_remove s ns name
-  | .clear => do_clear s
-  | .deploy => do_deploy s
-  | .evaluate m i x => do_evaluate eval s m i x
-
-/-- The answers to a sequence of requests, and the final state. -/
-def serve {I : Type} (c : Codec) (eval : String → String → I → JV) (s : State) : List (Request I) → State × List Resp
-  | [] => (s, [])
-  | r :: rs =>
-    let (s', a) := handle c eval s r
-    let (s'', as) := serve c eval s' rs
-    (s'', a :: as)
-
-/-- The workspace operation a definitions request stands for (the property's reading:
-`replace` substitutes the stored model of the same namespace and name); `none` for a
-request whose parameters are rejected and for evaluations. -/
-def opOf {I : Type} (c : Codec) : Request I → Option Op
-  | .add content => match classify c content with | .ok d => some (.add d) | .error _ => none
-  | .replace content => match classify c content with | .ok d => some (.replace d) | .error _ => none
-  | .remove (some ns) (some name) => some (.remove ns name)
-  | .remove _ _ => none
-  | .clear => some .clear
-  | .deploy => some .deploy
-  | .evaluate _ _ _ => none
-
-/-- The answer that goes with the outcome of the workspace operation. -/
-def respOf : Op → Res → Resp
-  | .add d, .ok => .added d.ns d.name
-  | .add d, .errNamespaceExists => .error (.namespaceExists d.ns)
-  | .add d, .errNameExists => .error (.nameExists d.name)
-  | .replace _, .ok => .status "definitions replaced"
-  | .replace d, .errNamespaceExists => .error (.namespaceExists d.ns)
-  | .replace d, .errNameExists => .error (.nameExists d.name)
-  | .remove _ _, _ => .status "definitions removed"
-  | .clear, _ => .status "definitions cleared"
-  | .deploy, _ => .status "definitions deployed"
-
 /-! ## The TCK endpoint -/
 
 /-- The answer of `POST /tck/evaluate`: `ResultDto::data(OutputNodeDto)` or `ResultDto::error(reason)`
@@ -220,6 +172,73 @@ def do_evaluate_tck {I O : Type} (evalT : String → String → I → Except (Li
     | none => (s, .error (.missingParameter "invocable"))
   | none => (s, .error (.missingParameter "model"))
 
+/-! ## Requests and histories -/
+
+inductive Request (I : Type) where
+  | add (content : Option (List Char))
+  | replace (content : Option (List Char))
+  | remove (ns name : Option String)
+  | clear
+  | deploy
+  | evaluate (model invocable : Option String) (input : Except (List Char) I)
+  /-- `POST /tck/evaluate`: `input` as in `do_evaluate_tck` -/
+  | tck (model invocable : Option String) (input : Option (Except (List Char) I))
+
+/-- `post_tck_evaluate` (`server.rs:282-292`): `Ok(response) => ResultDto::data(response)`, `Err(reason) =>
+ResultDto::error(reason)`. -/
+def tckAnswer : State × TckResp Dmn.Dto.OutputNode → State × Resp
+  | (s, .value o) => (s, .tck o)
+  | (s, .error e) => (s, .error e)
+
+/-- What the deployed evaluators answer: `json` for `POST /evaluate/…` (the value, rendered by `jsonify`), `tck` for
+`POST /tck/evaluate` (the value converted by `try_into()` into an `OutputNodeDto`, or the message of that
+conversion). -/
+structure Evals (I : Type) where
+  json : String → String → I → JV
+  tck : String → String → I → Except (List Char) Dmn.Dto.OutputNode
+
+def handle {I : Type} (c : Codec) (eval : Evals I) (s : State) : Request I → State × Resp
+  | .add content => do_add c s content
+  | .replace content => do_replace c s content
+  | .remove ns name => do_remove s ns name
+  | .clear => do_clear s
+  | .deploy => do_deploy s
+  | .evaluate m i x => do_evaluate eval.json s m i x
+  | .tck m i x => tckAnswer (do_evaluate_tck eval.tck s m i x)
+
+/-- The answers to a sequence of requests, and the final state. -/
+def serve {I : Type} (c : Codec) (eval : Evals I) (s : State) : List (Request I) → State × List Resp
+  | [] => (s, [])
+  | r :: rs =>
+    let (s', a) := handle c eval s r
+    let (s'', as) := serve c eval s' rs
+    (s'', a :: as)
+
+/-- The workspace operation a definitions request stands for (the property's reading:
+`replace` substitutes the stored model of the same namespace and name); `none` for a
+request whose parameters are rejected and for evaluations. -/
+def opOf {I : Type} (c : Codec) : Request I → Option Op
+  | .add content => match classify c content with | .ok d => some (.add d) | .error _ => none
+  | .replace content => match classify c content with | .ok d => some (.replace d) | .error _ => none
+  | .remove (some ns) (some name) => some (.remove ns name)
+  | .remove _ _ => none
+  | .clear => some .clear
+  | .deploy => some .deploy
+  | .evaluate _ _ _ => none
+  | .tck _ _ _ => none
+
+/-- The answer that goes with the outcome of the workspace operation. -/
+def respOf : Op → Res → Resp
+  | .add d, .ok => .added d.ns d.name
+  | .add d, .errNamespaceExists => .error (.namespaceExists d.ns)
+  | .add d, .errNameExists => .error (.nameExists d.name)
+  | .replace _, .ok => .status "definitions replaced"
+  | .replace d, .errNamespaceExists => .error (.namespaceExists d.ns)
+  | .replace d, .errNameExists => .error (.nameExists d.name)
+  | .remove _ _, _ => .status "definitions removed"
+  | .clear, _ => .status "definitions cleared"
+  | .deploy, _ => .status "definitions deployed"
+
 /-! ## Response bodies -/
 
 def kNamespace : List Char := ['n', 'a', 'm', 'e', 's', 'p', 'a', 'c', 'e']
@@ -235,6 +254,7 @@ def Resp.body : Resp → List Char
   | .added ns name => dataObjectBody [(kNamespace, ns.toList), (kName, name.toList)]
   | .status t => dataObjectBody [(kStatus, t.toList)]
   | .value v => dataBody v
+  | .tck o => Dmn.Dto.tckBody o
   | .error e => errorBody e.message
 
 /-- The JSON document a response stands for. -/
@@ -242,6 +262,7 @@ def Resp.json : Resp → Json
   | .added ns name => .obj [(kData, .obj [(kNamespace, .str ns.toList), (kName, .str name.toList)])]
   | .status t => .obj [(kData, .obj [(kStatus, .str t.toList)])]
   | .value v => .obj [(kData, toJson v)]
+  | .tck o => Dmn.Dto.tckJson o
   | .error e => .obj [(kErrors, .arr [.obj [(kDetails, .str e.message)]])]
 
 /-- Every number text inside an evaluated value is a number of the JSON grammar. -/
